@@ -367,7 +367,7 @@ func threadSafeType(t types.Type) bool {
 	case "sync", "sync/atomic":
 		return true
 	case "context":
-		return true
+		return n.Obj().Name() == "Context" // a CancelFunc may be called concurrently, but the variable holding it is plain memory
 	}
 	return false
 }
